@@ -132,6 +132,68 @@ func NewBounds(facts []Fact, canon Canon) *Bounds {
 	return b
 }
 
+// Assert adds the constraint x - y <= c and re-closes.
+func (b *Bounds) Assert(x, y Term, c int64) {
+	node := func(t Term) int {
+		if t.IsConst {
+			return 0
+		}
+		if i, ok := b.idx[t.Sym]; ok {
+			return i
+		}
+		i := len(b.idx)
+		b.idx[t.Sym] = i
+		for r := range b.d {
+			b.d[r] = append(b.d[r], inf)
+		}
+		row := make([]int64, i+1)
+		for j := range row {
+			row[j] = inf
+		}
+		row[i] = 0
+		b.d = append(b.d, row)
+		return i
+	}
+	i, j := node(x), node(y)
+	if x.IsConst {
+		c -= x.Const
+	}
+	if y.IsConst {
+		c += y.Const
+	}
+	if i == j {
+		return
+	}
+	if c < b.d[i][j] {
+		b.d[i][j] = c
+	}
+	n := len(b.d)
+	for k := 0; k < n; k++ {
+		for a := 0; a < n; a++ {
+			for e := 0; e < n; e++ {
+				if b.d[a][k] < inf && b.d[k][e] < inf && b.d[a][k]+b.d[k][e] < b.d[a][e] {
+					b.d[a][e] = b.d[a][k] + b.d[k][e]
+				}
+			}
+		}
+	}
+}
+
+// Sum records that s = a + t: adds a <= s when 0 <= t is entailed and t <= s when 0 <= a is entailed.
+func (b *Bounds) Sum(s, a, t Term) {
+	zero := Term{IsConst: true}
+	if b.LE(zero, t, 0) {
+		b.Assert(a, s, 0)
+	}
+	if b.LE(zero, a, 0) {
+		b.Assert(t, s, 0)
+	}
+	// strictness: t >= 1 => a + 1 <= s
+	if b.LE(Term{IsConst: true, Const: 1}, t, 0) {
+		b.Assert(a, s, -1)
+	}
+}
+
 // LE reports whether x - y <= c is entailed.
 func (b *Bounds) LE(x, y Term, c int64) bool {
 	if x.IsConst && y.IsConst {
